@@ -93,10 +93,24 @@ class PCAIncrement(taps.Monitor):
         if e > 1e-9 * scale:
             zero_col = bool(centre and (np.abs(np.vstack(rec[1][:-1]).mean(0)) == 0).any())
             ctx.fail("incremental_mean_differs_from_batch_mean", cls=cls, mech=mech + (":mean_has_exact_zero" if zero_col else ""), err=e)
+        g = m._components @ m._components.T
+        eo = float(np.abs(g - np.eye(len(g))).max())
+        ctx.err("pca_incremental_orthonormality", eo)
+        if eo > 1e-6:
+            ctx.fail("incremental_components_are_not_orthonormal", cls=cls, mech=mech, err=eo)
         if m.n_components != len(lam):
-            # components below the numerical threshold may legitimately differ by one at the edge of the spectrum
+            # components below the numerical threshold may legitimately differ at the edge of the spectrum
             if abs(m.n_components - len(lam)) > 0 and (len(lam) == 0 or min(m._eigenvalues.min(), lam.min()) > 1e-7 * lam.max()):
                 ctx.fail("incremental_number_of_components_differs_from_batch", cls=cls, mech=mech, got=int(m.n_components), expected=int(len(lam)))
+                return
+            # ... but the leading, numerically meaningful part of the spectrum is still the batch one
+            k = int(np.sum(lam > 1e-6 * lam[0]))
+            if m.n_components < k:
+                ctx.fail("incremental_number_of_components_differs_from_batch", cls=cls, mech=mech + ":leading_part", got=int(m.n_components), expected=int(len(lam)))
+            elif k:
+                e = float(np.abs(m._eigenvalues[:k] - lam[:k]).max() / lam[0])
+                if e > 1e-7:
+                    ctx.fail("incremental_eigenvalues_differ_from_batch", cls=cls, mech=mech + ":leading_part", err=e)
             return
         e = float(np.abs(m._eigenvalues - lam).max() / lam[0])
         ctx.err("pca_eigenvalues_vs_batch", e)
@@ -139,6 +153,8 @@ ALL_COMPS = [c for n in range(3, 8) for c in compositions(n)]     # 1 + 3 + 7 + 
 
 def pca_data(rng, n, d, kind):
     X = rng.normal(size=(n, d)) * rng.uniform(0.5, 3.0, d) * np.linspace(1.0, 2.5, d) + rng.normal(size=d) * 2
+    if kind == "large_values":
+        X = X * 10.0 ** rng.uniform(2, 6.5)                # raw sensor / pixel-sum magnitudes (menpo's documented cut-off is an absolute 1e-10)
     if kind == "zero_column":
         X[:, rng.integers(0, d)] = 0.0                     # a feature that is identically zero (masked / padded pixel)
     elif kind == "zero_mean_first_batch":
@@ -170,7 +186,7 @@ def w_pca_exhaustive(ctx, rng, i):
     variant = i // len(ALL_COMPS)
     centre = bool(variant % 2 == 0)
     d = [3, 12][(variant // 2) % 2]                         # below and above n
-    kind = ["plain", "zero_column", "zero_mean_first_batch"][(variant // 4) % 3]
+    kind = ["plain", "zero_column", "zero_mean_first_batch", "large_values"][(variant // 4) % 4]
     run_pca(ctx, rng, comp, d, centre, kind)
     ctx.count_case(("pca", tuple(comp), centre, d, kind), nontrivial=True,
                    sample={"model": "PCA", "composition": comp, "centred": centre, "d": d, "data": kind} if i < 4 else None)
@@ -186,7 +202,7 @@ def w_pca_random(ctx, rng, i):
     cuts = sorted(rng.choice(np.arange(1, rest), size=min(k - 1, max(0, rest - 1)), replace=False).tolist()) if rest > 1 and k > 1 else []
     comp = [first] + [b - a for a, b in zip([0] + cuts, cuts + [rest])]
     centre = bool(rng.random() < 0.6)
-    kind = ["plain", "plain", "zero_column", "zero_mean_first_batch"][rng.integers(0, 4)]
+    kind = ["plain", "plain", "zero_column", "zero_mean_first_batch", "large_values"][rng.integers(0, 5)]
     m1, X = run_pca(ctx, rng, comp, d, centre, kind)
     # a different splitting of the same data agrees with the first one
     comp2 = [comp[0] + comp[1]] + comp[2:] if len(comp) > 2 else [max(2, n // 2), n - max(2, n // 2)]
@@ -214,10 +230,20 @@ def w_pca_object(ctx, rng, i):
     X = pca_data(rng, n, k * dd, "plain")
     shapes = [ms.PointCloud(r.reshape(k, dd)) for r in X]
     first = int(rng.integers(2, n - 1))
-    m = PCAModel(shapes[:first])
     step = int(rng.integers(1, 5))
-    for a in range(first, n, step):
-        m.increment(shapes[a:a + step])
+    stream = bool(rng.random() < 0.5)
+    if stream:
+        # the documented iterator interface: one stream of samples, the constructor and every increment take the next n_samples of it
+        it = (s_ for s_ in shapes)
+        m = PCAModel(it, n_samples=first)
+        for a in range(first, n, step):
+            m.increment(it, n_samples=min(step, n - a))
+        if next(it, None) is not None:
+            ctx.fail("samples_left_in_the_stream_after_all_were_requested", cls="PCAModel")
+    else:
+        m = PCAModel(shapes[:first])
+        for a in range(first, n, step):
+            m.increment(shapes[a:a + step])
     b = PCAModel(shapes)
     ctx.tap("object_backed_vs_batch", "calls"); ctx.tap("object_backed_vs_batch", "checked")
     scale = max(1.0, np.abs(X).max())
@@ -228,7 +254,7 @@ def w_pca_object(ctx, rng, i):
             ctx.fail("object_backed_incremental_differs_from_batch", cls="PCAModel", mech="eigenvalues")
         if np.abs(m._components.T @ m._components - b._components.T @ b._components).max() > 1e-6:
             ctx.fail("object_backed_incremental_differs_from_batch", cls="PCAModel", mech="subspace")
-    ctx.count_case(("pca_object", first, step), nontrivial=True)
+    ctx.count_case(("pca_object", first, step, stream), nontrivial=True)
 
 
 def w_gmrf(ctx, rng, i):
@@ -272,9 +298,49 @@ def w_gmrf(ctx, rng, i):
                    sample={"model": "GMRF", "graph": kind, "n_vertices": V, "initial": n0, "increments": incs, "mode": mode, "sparse": sparse, "bias": bias} if i < 4 else None)
 
 
+def w_gmrf_object(ctx, rng, i):
+    """Object-backed incremental GMRF fed from lists or from one shared stream equals the batch object-backed model."""
+    from menpo.model import GMRFModel
+    import menpo.shape as ms
+    V = int(rng.integers(2, 7))
+    g = gmrfmon.make_graph(rng, V, ["edgeless", "chain", "tree", "random"][i % 4])
+    k = 2
+    n0 = 6 * 2 * k + int(rng.integers(2, 8))
+    incs = [int(v) for v in rng.integers(1, 9, int(rng.integers(1, 4)))]
+    n = n0 + sum(incs)
+    X = gmrfmon.make_data(rng, n, V, k)
+    shapes = [ms.PointCloud(r.reshape(V, k)) for r in X]
+    sparse = bool(rng.random() < 0.5)
+    stream = bool(i % 2)
+    gmrfmon.clear()
+    if stream:
+        it = (s_ for s_ in shapes)
+        m = GMRFModel(it, g, n_samples=n0, sparse=sparse, incremental=True)
+        for c in incs:
+            m.increment(it, n_samples=c)
+        if next(it, None) is not None:
+            ctx.fail("samples_left_in_the_stream_after_all_were_requested", cls="GMRFModel")
+    else:
+        m = GMRFModel(shapes[:n0], g, sparse=sparse, incremental=True)
+        a = n0
+        for c in incs:
+            m.increment(shapes[a:a + c])
+            a += c
+    gmrfmon.clear()
+    b = GMRFModel(shapes, g, sparse=sparse)
+    ctx.tap("object_backed_vs_batch", "calls"); ctx.tap("object_backed_vs_batch", "checked")
+    Q1, Q2 = gmrfmon.dense(m.precision), gmrfmon.dense(b.precision)
+    if m.n_samples != n or np.abs(m.mean_vector - b.mean_vector).max() > 1e-9 * max(1.0, np.abs(X).max()):
+        ctx.fail("object_backed_incremental_differs_from_batch", cls="GMRFModel", mech="mean_or_count:" + ("stream" if stream else "lists"))
+    elif Q1.shape != Q2.shape or np.abs(Q1 - Q2).max() > 1e-7 * max(1e-300, np.abs(Q2).max()):
+        ctx.fail("object_backed_incremental_differs_from_batch", cls="GMRFModel", mech="precision:" + ("stream" if stream else "lists"))
+    ctx.count_case(("gmrf_object", V, len(incs), sparse, stream), nontrivial=True)
+
+
 WORKLOADS = [
-    Workload("pca_every_composition", w_pca_exhaustive, quick=len(ALL_COMPS) * 12, thorough=len(ALL_COMPS) * 12 * 20, exhaustive=True),
+    Workload("pca_every_composition", w_pca_exhaustive, quick=len(ALL_COMPS) * 16, thorough=len(ALL_COMPS) * 16 * 20, exhaustive=True),
     Workload("pca_random", w_pca_random, quick=400, thorough=20000),
     Workload("pca_object", w_pca_object, quick=100, thorough=3000),
     Workload("gmrf", w_gmrf, quick=576, thorough=20000),
+    Workload("gmrf_object", w_gmrf_object, quick=80, thorough=3000),
 ]
